@@ -10,7 +10,7 @@ from __future__ import annotations
 import numpy as np
 
 from porepy.utils.array_operations import SparseNdArray
-from engines.history import Observer, Op, run_history
+from engines.history import Keeper, Observer, Op, run_history
 from simkit.runner import Workload
 from simkit.trace import Trace, Violation
 
@@ -27,7 +27,7 @@ ASSUMPTIONS = [
     "values are small integers stored as floats so additive sums are exact in any order (bitwise comparison is sound)",
     "coordinates are integers, as the class documents",
 ]
-PROBES = ["observation_sparse", "observation_end", "caller_mutates_arguments_after_add", "caller_mutates_returned_array", "integer_dtype_batch", "additive_cancels_to_zero", "dup_in_batch", "overlap_partial", "overlap_all", "overlap_unsorted_ge2", "batch_not_sorted", "additive_fresh_coordinate",
+PROBES = ["observation_sparse", "observation_end", "rejected_malformed_values_all_new", "rejected_malformed_values", "coordinates_not_int64", "caller_mutates_arguments_after_add", "caller_mutates_returned_array", "integer_dtype_batch", "additive_cancels_to_zero", "dup_in_batch", "overlap_partial", "overlap_all", "overlap_unsorted_ge2", "batch_not_sorted", "additive_fresh_coordinate",
           "absent_read_rejected", "empty_batch", "value_dim_gt1", "negative_coordinate", "query_with_duplicates"]
 
 
@@ -54,6 +54,7 @@ def run_history_c46(ch, tr: Trace) -> None:
         return np.array([counter[0] * 8 + j + 0.25 for j in range(vdim)], dtype=float)
 
     obs = Observer(ch, tr)
+    keeper = Keeper(lambda label, where: Violation("get_equals_dict", f"the array returned by {label} changed under the caller's hands during {where}", "returned_array_changed_later"))
 
     def check_all(where: str, force=False):
         if not (force or obs.due()):
@@ -119,7 +120,10 @@ def run_history_c46(ch, tr: Trace) -> None:
         if additive and not all(in_model):
             tr.probe("additive_fresh_coordinate")
         arg_vals = V[0] if (vdim == 1 and ch.flag()) else V
-        handed_coords = [np.array(c) for c in coords]
+        cdt = ch.choice([np.int64, np.int64, np.int32, np.int16])  # index arrays come in several integer widths (scipy: int32)
+        if cdt is not np.int64:
+            tr.probe("coordinates_not_int64")
+        handed_coords = [np.array(c, dtype=cdt) for c in coords]
         handed_vals = np.array(arg_vals)  # the caller's own array
         arr.add(handed_coords, handed_vals, additive=additive)
         if ch.flag(1, 3):
@@ -133,6 +137,7 @@ def run_history_c46(ch, tr: Trace) -> None:
                 model[c] = model[c] + v
             else:
                 model[c] = v.copy()
+        keeper.verify(f"add({[list(c) for c in coords]})")
         tr.op("add", "ok", [list(c) for c in coords], "additive" if additive else "overwrite", ov, dups)
         tr.state((min(len(model), 12), ov, dups, additive))
         check_all(f"add({[list(c) for c in coords]}, additive={additive})")
@@ -149,13 +154,17 @@ def run_history_c46(ch, tr: Trace) -> None:
         q = [ch.choice(keys) for _ in range(n)]
         if len(set(q)) < len(q):
             tr.probe("query_with_duplicates")
-        got = arr.get([np.array(k) for k in q])
+        qdt = ch.choice([np.int64, np.int64, np.int32, np.int16])
+        got = arr.get([np.array(k, dtype=qdt) for k in q])
+        keeper.verify(f"get({[list(k) for k in q]})")
         for j, k in enumerate(q):
             if not np.array_equal(got[:, j], model[k]):
                 raise Violation("get_equals_dict", f"get batch {q}: column {j} = {got[:, j].tolist()}, dict holds {model[k].tolist()}")
         if ch.flag(1, 3):
             got += 555  # the caller scribbles on the returned array: stored data must not change
             tr.probe("caller_mutates_returned_array")
+        else:
+            keeper.keep(got, f"get({[list(k) for k in q]})")
         tr.op("get", "ok", [list(k) for k in q], changing=False)
 
     def op_get_absent():
@@ -177,7 +186,51 @@ def run_history_c46(ch, tr: Trace) -> None:
             return
         raise Violation("absent_read_raises", f"get({q}) with never-inserted coordinate {c} returned {np.asarray(got).tolist()} instead of raising")
 
+    def op_add_malformed():
+        """A batch whose value array has the wrong number of rows: the call must fail, and - whatever it raises - must not
+        leave coordinates behind: a coordinate of a rejected batch was never inserted (reading it raises), and every
+        coordinate inserted before or afterwards still reads like the dictionary."""
+        n = ch.rng(1, 4)
+        coords = []
+        for _ in range(n):
+            coords.append(ch.choice(sorted(model)) if (model and ch.flag(1, 4)) else draw_coord())
+        rows = ch.choice([vdim + 1, vdim + 2] + ([1] if vdim > 1 else []))
+        V = np.arange(rows * n, dtype=float).reshape((rows, n)) + 0.5
+        additive = ch.flag(1, 3)
+        try:
+            arr.add([np.array(c) for c in coords], V, additive=additive)
+        except Exception:  # noqa: BLE001  any error is a rejection
+            tr.fault("rejected-call", "malformed_values")
+            tr.probe("rejected_malformed_values_all_new" if not any(c in model for c in coords) else "rejected_malformed_values")
+            tr.op("add_malformed", "rejected", [list(c) for c in coords], rows, changing=False)
+            fresh = [c for c in coords if c not in model]
+            if fresh:
+                c = fresh[0]
+                try:
+                    got = arr.get([np.array(c)])
+                except Exception:  # noqa: BLE001
+                    pass
+                else:
+                    raise Violation("absent_read_raises", f"after the rejected add({[list(x) for x in coords]}, values with {rows} rows for value_dim {vdim}): get({c}) returned {np.asarray(got).tolist()} although {c} was never inserted", "read_of_rejected_batch_coordinate")
+            try:
+                check_all(f"rejected add with {rows} value rows (value_dim {vdim})", force=True)
+            except Violation as v:
+                raise Violation(v.inv, v.msg, "state_changed_by_rejected_add")
+            return
+        if rows == 1:
+            # a single row for value_dim > 1 may be read as "the same value for every component" (numpy broadcasting);
+            # the statement does not say, so an implementation that accepts it must simply store that
+            tr.probe("one_row_values_broadcast")
+            for j, c in enumerate(coords):
+                v = np.full(vdim, V[0, j])
+                model[c] = model[c] + v if (additive and c in model) else v
+            tr.op("add_malformed", "broadcast", [list(c) for c in coords], rows)
+            check_all("add with one value row (broadcast)", force=True)
+            return
+        raise Violation("invalid_call_rejected", f"add with a value array of {rows} rows into an array of value_dim {vdim} was accepted", "malformed_values_accepted")
+
     ops = [
+        Op("add_malformed", 1, op_add_malformed),
         Op("add", 6, op_add, core=True),
         Op("get", 2, op_get, enabled=lambda: bool(model)),
         Op("get_absent", 1, op_get_absent),
